@@ -123,6 +123,8 @@ type Cluster struct {
 	// MissingKeyspaces makes `USE ks` fail with an Invalid error.
 	MissingKeyspaces map[string]bool
 	OnConnect        func(c *Conn)
+	// AfterRegister runs right after a REGISTER was acknowledged (an event can follow immediately).
+	AfterRegister func(c *Conn)
 	// SystemHandler may override the answer to the proxy's topology queries (broken backends).
 	SystemHandler func(c *Conn, query string) (Response, bool)
 }
@@ -432,6 +434,9 @@ func (c *Conn) handle(rawHdr, rawBody []byte) {
 			c.registered = true
 			c.mu.Unlock()
 			_ = c.Send(header.Version, header.StreamId, &message.Ready{})
+			if cl.AfterRegister != nil {
+				cl.AfterRegister(c)
+			}
 			return
 		case *message.Query:
 			q := strings.TrimSpace(m.Query)
